@@ -108,6 +108,21 @@ Proof.
     (split; [reflexivity|discriminate]).
 Qed.
 
+Lemma addm_seqrecords x y : pr_kind x = KSeqRecord -> pr_kind y = KSeqRecord ->
+  exists r, py_addm x y = Ok r /\ pr_seq r = pr_seq x ++ pr_seq y
+            /\ pr_kind r = KSeqRecord /\ pr_annotations r = None.
+Proof.
+  unfold py_addm, PyAddM_rec, is_CircularRecord, bio_add, is_SeqRecord.
+  destruct x as [kx sx ix fx ax lx], y as [ky sy iy fy ay ly]. cbn. intros -> ->.
+  eexists; (split; [reflexivity|]); cbn; auto.
+Qed.
+
+Lemma getslice_circular r lo hi : pr_kind r = KCircularRecord ->
+  exists r', py_getslice r lo hi = Ok r' /\ pr_seq r' = py_slice (pr_seq r) lo hi /\ pr_kind r' = KSeqRecord.
+Proof.
+  intros K. unfold py_getslice, PyGetSlice_rec. rewrite K. apply getitem_slice_ok.
+Qed.
+
 (* ---------- SeqMatch ------------------------------------------------------ *)
 
 Theorem SeqMatch_start_eq m rec sh : SeqMatch_start (SM m rec sh) = Ok (Z.of_nat (mstart m)).
